@@ -142,7 +142,64 @@ def parse_listing(text):
     return failing, errored
 
 
+EMPTY_FILES = [u"", u"# only a comment\n", u"# language: de\n", u"\n\n"]
+
+
+def check_disk(case):
+    """The standard Runner on a scratch project (feature files next to legal feature-less *.feature files), summary
+    on stdout: every element that is WRITTEN in the feature files is counted exactly once (whatever its status)."""
+    from .. import disk
+    from ..program import all_steps_of, normalize, scenario_instances
+    res = CaseResult()
+    prog = runcheck.resolve_faults(case["program"])
+    normalize(prog)
+    prog["cfg"] = dict(prog.get("cfg") or {}, summary=True)
+    extra = dict((name, EMPTY_FILES[k % len(EMPTY_FILES)]) for name, k in (case.get("empty_files") or {}).items())
+    proj = disk.Project(prog, extra_files=extra)
+    try:
+        argv = disk.cli_args(prog["cfg"]) + ["-f", "null", "features"]
+        run = disk.run_inproc(proj, argv, prog)
+        if run.escaped is not None:
+            res.fail("C14.disk.escape", "Runner.run() raised %r" % (run.escaped,))
+            return res
+        written = {"feature": len(prog["features"]), "rule": 0, "scenario": 0, "step": 0}
+        for feat in prog["features"]:
+            written["rule"] += sum(1 for it in feat["items"] if it["k"] == "r")
+            for inst in scenario_instances(feat):
+                written["scenario"] += 1
+                written["step"] += len(all_steps_of(feat, inst))
+        found = {}
+        for line in run.stdout.splitlines():
+            for fmt in ("v1", "v2", "v1A"):
+                parsed = parse_line(fmt, line)
+                if parsed:
+                    kind, total, counts = parsed
+                    found.setdefault(kind, total if total is not None else sum(counts.values()))
+                    break
+        for kind in ("feature", "scenario", "step"):
+            if kind not in found:
+                res.fail("C14.disk.missing-line", "no summary line for %ss in %r" % (kind, run.stdout[-300:]))
+            elif found[kind] != written[kind]:
+                res.fail("C14.disk.count", "the summary counts %d %ss, the feature files contain %d (features run: %s)"
+                         % (found[kind], kind, written[kind], [f.filename for f in run.features]))
+        if written["rule"] and found.get("rule", written["rule"]) != written["rule"]:
+            res.fail("C14.disk.count", "the summary counts %d rules, the feature files contain %d"
+                     % (found["rule"], written["rule"]))
+        if len(set(id(f) for f in run.features)) != len(run.features):
+            res.fail("C14.disk.feature-twice", "the runner holds the same feature object more than once: %s"
+                     % [f.filename for f in run.features])
+        res.label("disk")
+        if extra:
+            res.label("disk:feature-less-files")
+        res.nontrivial = written["scenario"] >= 2
+    finally:
+        proj.close()
+    return res
+
+
 def check(case):
+    if case.get("kind") == "disk":
+        return check_disk(case)
     from behave.reporter.summary import SummaryReporterV1
     from behave.summary import SummaryCollector
     res = CaseResult()
@@ -276,15 +333,28 @@ def interrupted_case(draw):
     return {"program": prog, "interrupt": True}
 
 
+@st.composite
+def disk_case(draw):
+    prog = draw(gen.program_st(faults=False, max_features=3, cfg=gen.cfg_st(flags=("dry_run",), p_tags=0.3)))
+    case = {"kind": "disk", "program": prog}
+    if draw(st.booleans()):
+        # legal *.feature files without a feature, sorted before / between / after the real ones
+        names = draw(st.lists(st.sampled_from(["a0.feature", "f0x.feature", "f1x.feature", "zz.feature", "sub/e.feature"]),
+                              min_size=1, max_size=3, unique=True))
+        case["empty_files"] = dict((n, draw(st.integers(0, 3))) for n in names)
+    return case
+
+
 def explore(rec):
     quick = rec.tier == "quick"
+    rec.hyp("disk-route", disk_case(), 1500 if quick else 30000)
     rec.hyp("runs", gen.program_st().map(lambda p: {"program": p}), 6000 if quick else 150000)
     rec.hyp("interrupted-in-hook", interrupted_case(), 1500 if quick else 30000)
 
 
 def required_labels(tier):
     return ["status:" + s for s in ["passed", "failed", "error", "hook_error", "skipped", "untested", "undefined",
-                                    "pending", "pending_warn"]] + ["cut-short", "has-rule", "hook-fault", "dry-run", "interrupted-in-hook"]
+                                    "pending", "pending_warn"]] + ["cut-short", "has-rule", "hook-fault", "dry-run", "interrupted-in-hook", "disk", "disk:feature-less-files"]
 
 
 KNOWN_PREDICATES = {}
